@@ -415,9 +415,9 @@ func keyedChild(a lib.Args) {
 	if a.Replay != "" {
 		for _, l := range lib.ReplayLines(a.Replay) {
 			switch l[0] {
-			case "srv.keyed", "srv.strict":
+			case "srv.keyed", "srv.strict", "srv.nokey":
 				d.runSrvKind(l[0], l[1], parseSteps(l[2]))
-			case "cli.keyed", "cli.strict":
+			case "cli.keyed", "cli.strict", "cli.nokey":
 				d.runCli(l[0], l[1], parseKeyedCliArgs(l[2]), 0)
 			case "drkey.cache":
 				runCacheCase(l[1], parseCacheArgs(l[2]))
@@ -451,6 +451,38 @@ func keyedChild(a lib.Args) {
 	rp := r.Fork()
 	for i := 0; i < n/10 && !d.lost; i++ {
 		d.runParallel(rp)
+	}
+	// kind srv.nokey: authenticated requests of clients in ASes for which the daemon refuses the key
+	// (error, key of a wrong length): the authenticator cannot verify
+	rn := r.Fork()
+	for i := 0; i < n/4 && !d.lost; {
+		tags := tagset{"nt": true, "keyed": true, "daemon-refuses": true}
+		listener := rn.Intn(2)
+		h := d.genSpec(rn, listener, tags)
+		h.srcIA = uint64(1+rn.Intn(3))<<48 | 0xff0000000000 | uint64(lib.Pick(rn, modeError, modeError, modeShort, modeLong))<<8 | uint64(rn.Intn(64))
+		h.payload = ntpRequest(rn, 0)
+		addAuth(rn, h, lib.Pick(rn, 0, 0, 1, 8), tagset{})
+		h.hbh = false
+		if h.auth >= 0 { // the MAC under the key the daemon withholds
+			h.key = ownKey(h.dstIA, h.srcIA, h.dstRaw, h.srcRaw, epochOf(time.Now()))
+		}
+		raw, err := h.build()
+		if err != nil || probeCandidate(raw) {
+			continue
+		}
+		i++
+		d.runSrvKind("srv.nokey", tags.String(), []step{{listener: listener, sender: rn.Intn(nSenders), raw: raw}})
+	}
+	// kind cli.nokey: clients with authentication enabled whose key the daemon refuses, answered with
+	// responses that carry the server's authenticator (any MAC)
+	rc := r.Fork()
+	for i := 0; i < n/8 && !d.lost; i++ {
+		cc := &cliCase{auth: true, seed: rc.U64() >> 1, keyed: true, mode: lib.Pick(rc, modeError, modeError, modeShort, modeLong)}
+		cc.scripts = [][]item{{{auth: lib.Pick(rc, 2, 3, 15, 1)}}}
+		if rc.Bool() {
+			cc.scripts = append(cc.scripts, []item{{auth: lib.Pick(rc, 2, 15)}, {auth: 0}})
+		}
+		d.runCli("cli.nokey", "nt,client-auth,client-without-key,keyed,resp-auth-badmac", cc, rc.Intn(nSenders))
 	}
 	d.runKeyedCliAll(r.Fork(), nCli)
 }
